@@ -282,8 +282,8 @@ def _check_dims(cell, elems, ctx):
 def _same(ctx, what, r1, r2, op, be, variant):
     k1, k2 = lattice.classify(r1), lattice.classify(r2)
     if type(r1) is not type(r2):
-        ctx.fail("operator", f"{what}: operator gives {type(r1).__name__}, method gives {type(r2).__name__}", op=op,
-                 variant=variant, backend=be)
+        ctx.fail(f"operator_type:{type(r1).__name__}/{type(r2).__name__}", f"{what}: operator gives {type(r1).__name__}, "
+                 f"method gives {type(r2).__name__}", op=op, variant=variant, backend=be)
         return False
     if k1 in ("object", "numpy", "awkward-array", "awkward-record"):
         s1, rows1 = lattice.read_vector_rows(r1)
